@@ -34,8 +34,8 @@ def is_fn(node):
 
 # ------------------------------------------------------------------ generation
 class Gen:
-    def __init__(self, rng, kinds, fkinds, max_depth=6, nested_fn_p=0.06, else_single_if_ok=True):
-        self.rng, self.kinds, self.fkinds = rng, kinds, fkinds
+    def __init__(self, rng, kinds, fkinds, max_depth=6, nested_fn_p=0.06, else_single_if_ok=True, curried=False):
+        self.rng, self.kinds, self.fkinds, self.curried = rng, kinds, fkinds, curried
         self.max_depth, self.nested_fn_p, self.else_single_if_ok = max_depth, nested_fn_p, else_single_if_ok
         self.counter = 0
 
@@ -79,7 +79,18 @@ class Gen:
     def fn(self, depth, nested=False, method=False):
         fk = "FMethod" if method else self.rng.choice(self.fkinds)
         name = self.fresh("m" if method else "f")
-        return [["Fn", fk, name, 0, 0], self.stmts(depth, 0 if self.rng.random() < 0.05 else 1, 3)]
+        body = self.stmts(depth, 0 if self.rng.random() < 0.05 else 1, 3)
+        if self.curried and not method and "FArrow" in self.fkinds and self.rng.random() < 0.35:
+            if nested and self.rng.random() < 0.5:
+                # anonymous block-bodied arrow passed as a call argument: xs.map((x) => { ... });
+                return [["Fn", "FArrow", "arrow_function", 0, 0, "callback"], body]
+            # curried arrows on one line: const f = (a) => (b) => { ... };
+            node = [["Fn", "FArrow", "arrow_function", 0, 0], body]
+            for lvl in range(self.rng.choice([1, 1, 2])):
+                node = [["Fn", "FArrowExpr", "arrow_function", 0, 0], [node]]
+            node[0][2] = name
+            return node
+        return [["Fn", fk, name, 0, 0], body]
 
     def file(self, n_items=None):
         r = self.rng
@@ -130,6 +141,8 @@ def has_else_single_if(nodes):
 def lang_ok(lang, nodes):
     lk = "ts" if lang == "js" else lang
     allowed = set(LANG_KINDS[lk]) | {"Elif", "Else", "Handler", "Finally", "Case", "Class"} | {"Fn:" + f for f in LANG_FKINDS[lk]} | {"Fn:FMethod"}
+    if lk == "ts":
+        allowed.add("Fn:FArrowExpr")
     if lk == "rs":
         allowed -= {"Handler", "Finally"}
     if not kinds_used(nodes) <= allowed:
@@ -221,7 +234,7 @@ class Renderer:
             e(level, f"class K{self.cond()}:")
             self.body(cs, level + 1)
         elif k == "Fn":
-            _, fk, name, _, _ = n[0]
+            fk, name = n[0][1], n[0][2]
             args = "(self)" if fk == "FMethod" else "()"
             e(level, ("async def " if fk == "FAsyncDef" else "def ") + name + args + ":")
             n[0][3], n[0][4] = len(self.lines), self.unit * level
@@ -284,8 +297,27 @@ class Renderer:
             self.body(cs, level + 1)
             e(level, "}")
         elif k == "Fn":
-            _, fk, name, _, _ = n[0]
+            fk, name = n[0][1], n[0][2]
             col = self.unit * level
+            if fk == "FArrowExpr":
+                head = f"const {name} = "
+                cur = n
+                while cur[0][1] == "FArrowExpr":
+                    cur[0][3], cur[0][4] = len(self.lines) + 1, col + len(head)
+                    head += "(a) => "
+                    cur = cur[1][0]
+                cur[0][3], cur[0][4] = len(self.lines) + 1, col + len(head)
+                e(level, head + "(z) => {")
+                self.body(cur[1], level + 1)
+                e(level, "};")
+                return
+            if fk == "FArrow" and len(n[0]) > 5 and n[0][5] == "callback":
+                head = f"xs{self.cond()}.map("
+                e(level, head + "(x) => {")
+                n[0][3], n[0][4] = len(self.lines), col + len(head)
+                self.body(cs, level + 1)
+                e(level, "});")
+                return
             if fk == "FArrow":
                 head = f"const {name} = "
                 e(level, head + "() => {")
@@ -349,7 +381,7 @@ class Renderer:
             self.body(cs, level + 1)
             e(level, "}")
         elif k == "Fn":
-            _, fk, name, _, _ = n[0]
+            fk, name = n[0][1], n[0][2]
             args = "(&self)" if fk == "FMethod" else "()"
             e(level, ("async fn " if fk == "FAsyncDef" else "fn ") + name + args + " {")
             n[0][3], n[0][4] = len(self.lines), self.unit * level
@@ -370,7 +402,7 @@ def coq_tree(n) -> str:
     if isinstance(k, str):
         ks = "K" + k
     else:
-        _, fk, name, line, col = k
+        fk, name, line, col = k[1], k[2], k[3], k[4]
         ks = f"(KFn {fk} {coq_string(name)} {line} {col})"
     return f"T {ks} {coq_list([coq_tree(c) for c in n[1]])}"
 
